@@ -745,6 +745,8 @@ def check_c19(pid, tier, seed):
     tr1 = run_scripts(wvbin, wd, "c19ab", sessions)
     tr2 = run_scripts(wvbin, wd, "c19c", [{"id": s["id"], "steps": [dict(s["steps"][0], tag="C")]} for s in sessions])
 
+    shallow = {}
+
     def collect(traces):
         runs = {}
         cur = None
@@ -758,6 +760,7 @@ def check_c19(pid, tier, seed):
                     runs[cur].append(json.dumps(e, sort_keys=True))
                 elif e["ev"] == "SearchEnd":
                     runs[cur].append("end:%s:nodes=%s" % (e["status"], e["nodes"]))
+                    shallow[cur] = e.get("shallow_workers", 0)
         return runs
     ab, c = collect(tr1), collect(tr2)
     # public entry point (threaded, one worker below depth 3): A/B in one process, C in another
@@ -786,19 +789,23 @@ def check_c19(pid, tier, seed):
             if a is None or b is None or cc is None:
                 tool_error("missing run for repro case %s" % s["id"])
             st = s["steps"][0]
-            f.write(json.dumps({"ev": "Repro", "fen": st["fen"], "seed": str(st["seed"]), "depth": st["depth"], "api": "hook", "a": a, "b": b, "c": cc}) + "\n")
+            f.write(json.dumps({"ev": "Repro", "fen": st["fen"], "seed": str(st["seed"]), "depth": st["depth"], "api": "hook", "shallow_workers": 0, "a": a, "b": b, "c": cc}) + "\n")
             n += 1
         for p in pub:
             a, b, cc = pab.get((p["id"], "A")), pab.get((p["id"], "B")), pc.get((p["id"], "C"))
             if a is None or b is None or cc is None:
                 tool_error("missing public run for repro case %s" % p["id"])
-            f.write(json.dumps({"ev": "Repro", "fen": p["fen"], "seed": str(p["seed"]), "depth": p["depth"], "api": "public", "a": a, "b": b, "c": cc}) + "\n")
+            f.write(json.dumps({"ev": "Repro", "fen": p["fen"], "seed": str(p["seed"]), "depth": p["depth"], "api": "public", "shallow_workers": max(shallow.get((p["id"], t), 0) for t in "ABC"), "a": a, "b": b, "c": cc}) + "\n")
             n += 1
     shards = shard(path, NPROC)
     res = tlc_many([dict(module="SearchTrace", trace=p, xmx="3g") for p in shards])
     chk.add_tlc(res)
     from check import fold_diags
     fold_diags(chk, res, pid)
+    drift = [d["what"] for r in res for d in r["diags"] if d.get("prop") == "DRIFT"]
+    if drift:
+        chk.notes.append("model drift: %s" % json.dumps(drift[:3]))
+        print("MODEL-DRIFT property=%s the control model (Search.tla: one worker below depth 3 through the public entry point) no longer describes the code: %s" % (pid, json.dumps(drift[0])))
     first = json.loads(open(path).readline())
     distinct = len({(s["steps"][0]["fen"], s["steps"][0]["seed"], s["steps"][0]["depth"]) for s in sessions}) + len(pub)
     chk.coverage.update({"evaluations": n * 3, "distinct_nontrivial": distinct, "traces_validated_against_impl": len(shards),
